@@ -35,10 +35,10 @@ type simPkt struct {
 type netFate func(from, to string, nth int, nowMs int64, data []byte) []int
 
 type hubDelivery struct {
-	at   time.Time
-	seq  int64
-	to   *simConn
-	pkt  simPkt
+	at  time.Time
+	seq int64
+	to  *simConn
+	pkt simPkt
 }
 
 type hubHeap []*hubDelivery
